@@ -84,6 +84,21 @@ pub fn run_case(case: &QuietCase) -> CaseReport {
                 let mut c = cmd.clone();
                 c.quiet = toggle;
                 let r = m.exec(&c.bytes());
+                if toggle && r.panic.is_none() && r.decode_err.is_some() && !out.is_empty() {
+                    // the loud form was decoded, executed and answered in the all-loud run; the same request
+                    // with the quiet opcode is refused by the decoder: its effect is lost, not only its answer
+                    rep.fail = Some(fail(
+                        "quiet_variant_rejected",
+                        format!(
+                            "{} was executed and answered {} in its loud form, but the same request with the quiet opcode is rejected by the decoder ({}) - its effect is lost and the connection ends",
+                            cmd.short(),
+                            wire::hexs(out),
+                            r.decode_err.clone().unwrap_or_default()
+                        ),
+                        cmd,
+                    ));
+                    return rep;
+                }
                 if r.panic.is_some() || r.decode_err.is_some() {
                     // crash / rejection of a valid request: other properties' business
                     rep.classes.push("aborted".into());
